@@ -281,11 +281,47 @@ func flowsTo(v ssa.Value) map[ssa.Value]bool {
 					out[y] = true
 					work = append(work, y)
 				}
+			case *ssa.Return:
+				// returned by a new helper: the value continues at every call of the helper
+				if flowCtx == nil || !flowCtx.isNew(y.Parent()) {
+					continue
+				}
+				sites, _ := flowCtx.callersOf(y.Parent())
+				for k, res := range y.Results {
+					if res != x {
+						continue
+					}
+					for _, s := range sites {
+						cv, ok := s.Call.(ssa.Value)
+						if !ok {
+							continue
+						}
+						if len(y.Results) == 1 {
+							if !out[cv] {
+								out[cv] = true
+								work = append(work, cv)
+							}
+							continue
+						}
+						if cv.Referrers() == nil {
+							continue
+						}
+						for _, cr := range *cv.Referrers() {
+							if ex, ok := cr.(*ssa.Extract); ok && ex.Index == k && !out[ex] {
+								out[ex] = true
+								work = append(work, ex)
+							}
+						}
+					}
+				}
 			}
 		}
 	}
 	return out
 }
+
+// flowCtx: set by the driver; lets flowsTo follow values through the results of new helpers.
+var flowCtx *Ctx
 
 func fmtN(n int, what string) string { return fmt.Sprintf("%d %s", n, what) }
 
